@@ -623,6 +623,7 @@ func TestC15(t *testing.T) {
 			A *CaseA `json:"a"`
 			B *CaseB `json:"b"`
 			C *CaseC `json:"c"`
+			D *CaseD `json:"close"`
 		}
 		if err := vcore.LoadReplayCase(f, &w); err != nil {
 			t.Fatalf("replay %s: %v", f, err)
@@ -643,10 +644,15 @@ func TestC15(t *testing.T) {
 			accountC(*w.C, s)
 			vcore.Report(t, v, map[string]any{"c": w.C})
 		}
+		if w.D != nil {
+			vcore.E.Eval()
+			vcore.Report(t, runD(*w.D), map[string]any{"close": w.D})
+		}
 	}
 	if explicit {
 		return
 	}
+	closePart(t)
 	vcore.Check(t, vcore.N(500, 9000), func(rt *rapid.T) {
 		c := genA(rt)
 		v, s := runA(c)
